@@ -21,7 +21,7 @@ RULE = ('cases = seeded random histories of 1..6 operations (reads and writes, s
         'by a well-formed operation; distinct = sequence of (operation kind, failure kind) + seed/key')
 ASSUMPTIONS = ['error responses are sent with EDCP extension 6 or 7 (the client only reports an error indicator then)',
                'expected error texts are taken from a table copied from J1939-73 Appendix (names as in the library\'s ErrorInfo are compared case-insensitively by code)']
-MIN_OBS = {'operations': {'quick': 10000, 'thorough': 150000}, 'failures_checked': {'quick': 4000, 'thorough': 60000}, 'recoveries_checked': {'quick': 2000, 'thorough': 30000},
+MIN_OBS = {'operations': {'quick': 10000, 'thorough': 150000}, 'failures_checked': {'quick': 4000, 'thorough': 60000}, 'recoveries_checked': {'quick': 1800, 'thorough': 27000},
            'gate_checks': {'quick': 4000, 'thorough': 60000}, 'wrong_key_ops': {'quick': 600, 'thorough': 9000}, 'error_codes_max': 1}
 
 DEFINED = [0x0, 0x1, 0x2, 0x10, 0x11, 0x12, 0x13, 0x16, 0x17, 0x1F, 0x20, 0x21, 0x22, 0x23, 0x24, 0x100, 0x101, 0x102, 0x103, 0x104, 0x105, 0x106, 0x107,
